@@ -29,6 +29,8 @@ QUICK = [
     _c('multicommodity_take', 'multicommodity', dict(T=3, take=(1, 3))),
     _c('take_inside', 'contract_take', dict(T=4, take=(1, 3))),
     _c('take_straddles_end', 'contract_take', dict(T=3, take=(1, 6))),
+    _c('take_dates_in_utc_on_cet_grid', 'contract_take', dict(T=4, freq=('h', '2021-01-04 00:00', '2021-01-04 04:00', 'CET'), take=(1, 3), take_tz='UTC')),
+    _c('take_dates_in_us_eastern_on_cet_grid_straddling', 'contract_take', dict(T=4, freq=('h', '2021-01-04 00:00', '2021-01-04 04:00', 'CET'), take=(2, 7), take_tz='US/Eastern')),
     _c('take_straddles_window', 'contract_take', dict(T=4, take=(0, 4), win=(1, 3))),
     _c('ext_transport', 'ext_transport', dict(T=3)),
     _c('caps_timeseries', 'caps_ts', dict(T=3)),
